@@ -57,3 +57,10 @@ Example C18_example_late_genesis :
                        else ex_get i) 2
     (LProof (ex_p 3)) true (in_order (batches 4 2)) = Err ENoPrev.
 Proof. vm_compute. reflexivity. Qed.
+
+Example C18_example_nil_previous_hash :
+  build (Some (ex_p 2)) (fun i => if Nat.eqb i 2
+                        then GProof {| sh := 5; bh := 10; sid := 88; sprev := 0; tree_ok := true; pvalid := true |}
+                        else GProof (ex_p (i + 3))) 3
+    (LProof (ex_p 7)) true (in_order (batches 5 3)) = Err ENoPrevHash.
+Proof. vm_compute. reflexivity. Qed.
